@@ -155,7 +155,11 @@ def module_spec(draw, role):
     if role == "in":
         for cn in draw(st.lists(st.sampled_from(CONSTS), min_size=1, max_size=2, unique=True)):
             spec["consts"].append({"name": cn, "seq": draw(st.sampled_from(("tuple", "tuple", "list"))),
-                                   "values": draw(st.lists(st.sampled_from(CONST_ITEMS), min_size=1, max_size=4))})
+                                   "values": draw(st.lists(st.sampled_from(CONST_ITEMS), min_size=1, max_size=4)),
+                                   # a later statement that extends the name (`X += (...)` / `X = X + [...]`): the
+                                   # evaluated value is the final one, not the first literal
+                                   "augment": draw(st.lists(st.sampled_from(CONST_ITEMS), min_size=1, max_size=2))
+                                   if draw(st.integers(0, 3)) == 3 else []})
     else:
         spec["doc"] = draw(st.integers(0, 11)) == 11
     return spec
@@ -259,6 +263,12 @@ def render_module(spec):
             out.append("%s = [%s]" % (c["name"], inner))
         else:
             out.append("%s = (%s%s)" % (c["name"], inner, "," if len(c["values"]) == 1 else ""))
+        if c.get("augment"):
+            extra = ", ".join(repr(v) for v in c["augment"])
+            if c["seq"] == "list":
+                out.append("%s = %s + [%s]" % (c["name"], c["name"], extra))
+            else:
+                out.append("%s += (%s,)" % (c["name"], extra))
     for it in spec["items"]:
         out += ["", ""]
         out += render_class(it) if it["kind"] == "class" else render_func(it)
@@ -321,17 +331,35 @@ def read_locations(tree):
 
 
 def read_consts(tree):
-    out = []
+    """Top-level sequence constants with their FINAL value: later `X += <literal>` and `X = X + <literal>` statements are
+    followed (independent of cdd: a tiny interpreter over literals)."""
+    vals, order = {}, []
     for node in tree.body:
-        if isinstance(node, ast.Assign) and len(node.targets) == 1 and isinstance(node.targets[0], ast.Name) \
-                and isinstance(node.value, (ast.Tuple, ast.List)):
+        if isinstance(node, ast.Assign) and len(node.targets) == 1 and isinstance(node.targets[0], ast.Name):
+            name = node.targets[0].id
+            if isinstance(node.value, (ast.Tuple, ast.List)):
+                try:
+                    vals[name] = list(ast.literal_eval(node.value))
+                except ValueError:
+                    vals.pop(name, None)
+                    continue
+                if name not in order:
+                    order.append(name)
+            elif isinstance(node.value, ast.BinOp) and isinstance(node.value.op, ast.Add) \
+                    and isinstance(node.value.left, ast.Name) and node.value.left.id == name and name in vals:
+                try:
+                    vals[name] = vals[name] + list(ast.literal_eval(node.value.right))
+                except ValueError:
+                    vals.pop(name, None)
+            elif name in vals:
+                vals.pop(name, None)        # rebound to something this reader does not follow: not a candidate
+        elif isinstance(node, ast.AugAssign) and isinstance(node.target, ast.Name) and isinstance(node.op, ast.Add) \
+                and node.target.id in vals:
             try:
-                vals = list(ast.literal_eval(node.value))
+                vals[node.target.id] = vals[node.target.id] + list(ast.literal_eval(node.value))
             except ValueError:
-                continue
-            if vals:
-                out.append({"kind": "const", "path": node.targets[0].id, "name": node.targets[0].id, "values": vals})
-    return out
+                vals.pop(node.target.id, None)
+    return [{"kind": "const", "path": n, "name": n, "values": vals[n]} for n in order if vals.get(n)]
 
 
 def _fn_at(tree, at):
